@@ -71,6 +71,7 @@ func quietZap() *zap.Config {
 
 // Pipeline is a running L2 or L3 system under simulation.
 type Pipeline struct {
+	DebugLog bool // L3: run the daemon with -log-level debug
 	rc    *RunCtx
 	Level int
 	H     *History
@@ -190,6 +191,9 @@ func (p *Pipeline) Start() error {
 		p.disk.Initial = p.InitialOutput
 		os.Setenv("NODE_NAME", "sim-node")
 		args := []string{"audito-maldito", "-sshd-pipe-path", sp, "-auditd-pipe-path", ap, "-app-events-output", p.disk.Path}
+		if p.DebugLog {
+			args = append(args, "-log-level", "debug")
+		}
 		rc.Sim.Spawn("daemon", func() {
 			err := cmd.RunNamedPipe(p.ctx, args, hl, quietZap())
 			p.setReturned(err)
